@@ -158,7 +158,11 @@ fn gen_thread_ops(r: &mut Rng, n: usize, tid: usize, counter: &mut u8) -> Vec<St
         let g = [0u8, 0, 1, 1, 2][r.below(5) as usize];
         *counter = counter.wrapping_add(1);
         let val = *counter;
-        let op = match r.below(16) {
+        let op = match r.below(19) {
+            // two not-yet-existing groups (2 and 3) race for one new routing id (5): exactly one
+            // of them may win it, in every interleaving
+            16 | 17 => StOp::SaveGroup { g: 2 + r.below(2) as u8, nostr: 5, name: val % 4, epoch: val % 5, state: 0, admins: 1 + (val % 7), last: None, su: 0 },
+            18 => StOp::FindByNostr { n: [0u8, 2, 5][r.below(3) as usize] },
             14 => StOp::ListSnapshots { g },
             15 => StOp::FindMessage { g, id: r.below(3) as u8 },
             0 | 1 => StOp::SaveGroup { g, nostr: g, name: val % 4, epoch: val % 5, state: 0, admins: 1 + (val % 7), last: None, su: 0 },
